@@ -1,5 +1,7 @@
-//! Corpus entries: glue that instantiates one production-generated flow with simulated inputs
-//! and recording outputs, plus the entry's metadata. The hand-written specs live in `spec_*.rs`.
+//! Corpus entry metadata. The glue that instantiates a production-generated flow with simulated
+//! inputs and recording outputs lives in the `e4_gen` crate (`glue.rs`, `netglue.rs`); the
+//! hand-written plain-Rust specs live next to the oracle of the property that uses them
+//! (`p28.rs`, `p30.rs`, `p32.rs`, `net.rs`, ...).
 
 use e4_gen::io::{Exec, NetSched, Plan};
 use crate::sched::Shape;
